@@ -569,3 +569,50 @@ Proof.
     pose proof (c08_clause8_ctx univ code nc cb s e Hq Hk Hin) as H1. cbv zeta in H1. exact (eq_true_false_abs _ H1 E). }
   not_here E.
 Qed.
+
+(** ** C08, clause 2: a rejected step changes nothing (any state, one model step) *)
+Lemma skipn_all {A} (l : list A) : skipn (length l) l = [].
+Proof. induction l; simpl; [reflexivity|assumption]. Qed.
+
+Theorem model_passes_C08_clause_2_lemma :
+  forall c s st univ seen fired tr sc pcode pnc pcb,
+    holds_C08 seen fired tr sc (obs_of univ pcode pnc pcb s) st (obs_step univ c s st) <> 2.
+Proof.
+  intros c s st univ seen fired tr sc pcode pnc pcb E.
+  apply first_fail_in in E; [|lia]. unfold holds_C08 in E; cbv zeta in E.
+  do 4 (split_seg E; [not_here E|]). split_seg E; [|not_here E].
+  destruct E as [E|[]]. injection E as E. unfold obs_step, apply in E.
+  destruct (exec_step c s st) as [s'| |]; cbn [res_code obs_of o_code] in E; try discriminate E.
+  - rewrite skipn_all in E. unfold obs_same in E. cbn [obs_of o_bals o_binds o_ctxs o_reqs o_vols o_earned o_oearned o_newq o_expq o_newmark o_expmark o_cb] in E.
+    rewrite !eqb_refl in E. discriminate E.
+  - rewrite skipn_all in E. unfold obs_same in E. cbn [obs_of o_bals o_binds o_ctxs o_reqs o_vols o_earned o_oearned o_newq o_expq o_newmark o_expmark o_cb] in E.
+    rewrite !eqb_refl in E. discriminate E.
+Qed.
+
+(** ** C08, clause 6: authority over a context (any state, one model step) *)
+Theorem model_passes_C08_clause_6_lemma :
+  forall c s st univ seen fired tr sc pcode pnc pcb,
+    holds_C08 seen fired tr sc (obs_of univ pcode pnc pcb s) st (obs_step univ c s st) <> 6.
+Proof.
+  intros c s st univ seen fired tr sc pcode pnc pcb E.
+  apply first_fail_in in E; [|lia]. unfold holds_C08 in E; cbv zeta in E.
+  do 12 (split_seg E; [not_here E|]). split_seg E; [|not_here E].
+  unfold obs_step in E. cbn [obs_of o_code o_ctxs] in E.
+  destruct (exec_step c s st) as [s'| |] eqn:Ex.
+  2,3: (destruct (ctl_target st) as [[[id cn] [|]]|]; [| |contradiction E]; destruct E as [E|[]]; injection E as E; cbn [res_code] in E; discriminate E).
+  pose proof (module_context_control_lemma c s st s' Ex) as Hm.
+  destruct st as [txh m| | | | | | | |]; try contradiction E.
+  - pose proof (only_consumer_controls_lemma c s txh m s' Ex) as Hc.
+    destruct m; try contradiction E; cbn [ctl_target] in E; destruct E as [E|[]]; injection E as E;
+      destruct Hc as (x & Hg & Hcn & Hmd); rewrite (get_map_val ctx_tuple), Hg in E; cbn [option_map ctx_tuple t_cons t_mod res_code] in E;
+      rewrite Hcn, Hmd, Z.eqb_refl in E; discriminate E.
+  - cbn [ctl_target] in E. destruct E as [E|[]]; injection E as E. destruct Hm as (x & Hg & Hcn).
+    rewrite (get_map_val ctx_tuple), Hg in E; cbn [option_map ctx_tuple t_cons t_mod res_code] in E.
+    destruct (x_mod x); [rewrite (Hcn eq_refl), Z.eqb_refl in E|]; discriminate E.
+  - cbn [ctl_target] in E. destruct E as [E|[]]; injection E as E. destruct Hm as (x & Hg & Hcn).
+    rewrite (get_map_val ctx_tuple), Hg in E; cbn [option_map ctx_tuple t_cons t_mod res_code] in E.
+    destruct (x_mod x); [rewrite (Hcn eq_refl), Z.eqb_refl in E|]; discriminate E.
+  - cbn [ctl_target] in E. destruct E as [E|[]]; injection E as E. destruct Hm as (x & Hg & Hcn).
+    rewrite (get_map_val ctx_tuple), Hg in E; cbn [option_map ctx_tuple t_cons t_mod res_code] in E.
+    destruct (x_mod x); [rewrite (Hcn eq_refl), Z.eqb_refl in E|]; discriminate E.
+Qed.
